@@ -70,9 +70,14 @@ func (d *DIDDocResolver) Resolve(kid string) (*crypto.PublicKey, error) {
 		if err != nil {
 			return nil, err
 		}
+
+		// the matching entry was found: later entries must not overwrite the result (with nil)
+		if pubKey != nil {
+			return pubKey, nil
+		}
 	}
 
-	return pubKey, nil
+	return nil, fmt.Errorf("didDocResolver: no keyAgreement with ID '%v' in the DID document", kid)
 }
 
 func extractKey(kid, keyAgreementID string, ka *did.Verification) (*crypto.PublicKey, error) {
